@@ -61,6 +61,15 @@ CHECKS = {
         "text": "confineUser_iff, confineOrganization_iff, confineGoogleHD_iff, confineGitHubOrg_iff (membership in the union over ALL presented identities), no_identity_denies, other_request_denied (all five kinds -> ErrInvalidAccess) are proved for all values and requests; maxValidity_iff_wrapped (permits iff exact lifetime <= the wrapped int64 duration), maxValidity_sound (permitted => exact lifetime <= secs*10^9 in unbounded integers, for every uint64 limit), maxValidity_exact (iff when secs*10^9 < 2^63), getMaxValidity_min (minimum over all limits at any nesting depth; <= every true limit; the true minimum when none overflows; flag iff a limit exists), getMaxValidity_order_independent; the model is executed against Prohibits on discharge requests with 0-3 identities per provider and boundary limits, and against GetMaxValidity on sets with limits nested to depth 3",
         "note": "tie is differential (family authcav); DischargeRequest.Now() is the wall clock: the request time is read just before the call, MaxValidity cases with expiry == now are discarded and counted, all other expiries are >= 2 s from the decision boundary. Limits whose true duration is not representable (secs > 9223372036) deny more than the author asked: allowed by the property text (wrapped_limit). Confine* errors wrap nothing (errors.Is(err, ErrUnauthorized) is false): modelled as leaf `confine`.",
     },
+    "C17": {
+        "props": "Macaroon.Props.C17",
+        "families": ["scope"],
+        "pobs": "scope",
+        "technique": "Lean 4 proof (GetCaveats = caveats nested anywhere; a definite denial propagates through any depth of conditionals; refinement of each helper to a declarative spec over all caveat sets) + differential correspondence model/Go + brute-force CaveatSet.Validate oracle over the id universe",
+        "design_ref": "DESIGN.md §3 C17",
+        "text": "getCaveats_finds_nested, nested_denial_denies_set, orgScope_sound, appScope_sound, clusterScope_sound, appsAllowing_sound (the list is exactly the app ids whose request clears; nil => every id clears), expiration_is_window_end, expiration_is_earliest, expiration_sound / verifiedExpiration_sound, window_in_conditional_always_applies are proved for every caveat set of the registered universe (wrappers nested arbitrarily), every request type and action. Helper results are compared with the model; spec.scope.* lines compare each helper answer with brute-force Validate over ids x actions x request shapes (observable sound / unsound:<clause>:<id>).",
+        "note": "tie is differential (family scope); P-observable = the oracle verdict of the spec.scope.* lines, helper results are fidelity observables. AppsAllowing reads the wall clock through flyio.Access.Now(): it is an explicit model input, generated windows stay >= 1h from it. Order independence of the sorted results is exercised, not proved.",
+    },
 }
 
 # reasons for properties not claimed yet (MANIFEST.not_applicable)
